@@ -202,3 +202,19 @@ package slip
 //@   ensures[good] result == (fcs_fold(0xffff, arr(dataWithCrc), off(dataWithCrc), uint64(len(dataWithCrc))) == 0xf0b8)
 //@   safe
 //@   property C25
+
+// ---- SLIPMUX writer glue: what is handed to the SLIP writer. Stated as assertions at the call of the SLIP
+// writer (the composed packet is a local of WritePacket): IP frames go out unchanged; every other frame type
+// is prepended as one byte; CoAP frames get two more bytes at the end (the checksum, by AppendFcs16's
+// contract the complement of its argument, least significant byte first, behind unchanged data - that the
+// payload bytes of a CoAP packet are still in place is AppendFcs16's postcondition and is not restated here).
+//@ func (*SlipMuxWriter).WritePacket
+//@   requires s != nil && s.w != nil
+//@   site (*slip.Writer).WritePacket.0 assert ((frame >= 0x45 && frame <= 0x4f) || (frame >= 0x60 && frame <= 0x6f)) ==> len(p) == len(old(p)) && (forall j int :: 0 <= j && j < len(p) ==> p[j] == old(p)[j])
+//@   site (*slip.Writer).WritePacket.0 assert !((frame >= 0x45 && frame <= 0x4f) || (frame >= 0x60 && frame <= 0x6f)) ==> p[0] == frame
+//@   site (*slip.Writer).WritePacket.0 assert !((frame >= 0x45 && frame <= 0x4f) || (frame >= 0x60 && frame <= 0x6f)) && frame != 0xa9 ==> (forall j int :: 0 <= j && j < len(old(p)) ==> p[1+j] == old(p)[j])
+//@   site (*slip.Writer).WritePacket.0 assert !((frame >= 0x45 && frame <= 0x4f) || (frame >= 0x60 && frame <= 0x6f)) && frame != 0xa9 ==> len(p) == len(old(p)) + 1
+//@   site (*slip.Writer).WritePacket.0 assert frame == 0xa9 ==> len(p) == len(old(p)) + 3
+//@   appendfacts
+//@   noframe
+//@   property C25
